@@ -45,6 +45,72 @@ def _vec(ev, st, v) -> Optional[Tuple[A.RF, A.RF, A.RF]]:
         return None
 
 
+def wind_roles(F: IntegrateFacts) -> Tuple[str, str]:
+    """Names of the wind sock and of the wind vector in _integrate, by data flow: the sock is what _WindSock(...) is
+    assigned to, the wind what is assigned from one of its methods."""
+    fn = F.func
+    socks, winds = set(), set()
+    for n in ast.walk(fn.node):
+        if isinstance(n, (ast.Assign, ast.AnnAssign)) and n.value is not None and isinstance(n.value, ast.Call):
+            tg = [t.id for t in (n.targets if isinstance(n, ast.Assign) else [n.target]) if isinstance(t, ast.Name)]
+            if norm(n.value.func).split('.')[-1] == '_WindSock':
+                socks |= set(tg)
+    for n in ast.walk(fn.node):
+        if isinstance(n, (ast.Assign, ast.AnnAssign)) and n.value is not None and isinstance(n.value, ast.Call) \
+                and isinstance(n.value.func, ast.Attribute) and norm(n.value.func.value) in socks:
+            winds |= {t.id for t in (n.targets if isinstance(n, ast.Assign) else [n.target]) if isinstance(t, ast.Name)}
+    if len(socks) != 1 or len(winds) != 1:
+        raise AnalysisError(f'_integrate: wind sock held in {sorted(socks)}, wind vector in {sorted(winds)}')
+    return next(iter(socks)), next(iter(winds))
+
+
+def loop_iteration(prog: Program, F: IntegrateFacts, ev: Evaluator, ctx: Ctx):
+    """Evaluate one iteration of the integration loop on a symbolic state (x, y, z, vx, vy, vz, t, wind wx..wz)."""
+    tcc = prog.cls(C.M_TC, 'TrajectoryCalc')
+    cfgc = prog.cls(C.M_TC, 'Config')
+    sock, wname = wind_roles(F)
+    st = State()
+    cfg_inst = ev.new_inst(st, cfgc, {f: S(f'cfg.{f}') for f in prog.namedtuple_fields(cfgc)})
+    try:
+        selfv = ev.construct(tcc, [cfg_inst], {}, st, ctx)
+    except Undecided as exc:
+        raise AnalysisError(f'TrajectoryCalc.__init__: {exc}') from exc
+    st.heap[selfv.oid].update({'alt0': S('alt0'), 'calc_step': S('cs'), 'look_angle': S('L'), 'weight': S('w'),
+                               '_bc': S('BC'), '_curve': SymObj('curve'), '__mach_list': SymObj('ml'),
+                               '_table_data': SymObj('table')})
+    lm = {}
+    from .c18 import _locals_from_config
+    lm = _locals_from_config(F.func)
+    env = {'self': selfv, F.func.positional[1]: SymObj('shot'),
+           F.P: C.mk_vec(ev, st, prog, 'x', 'y', 'z'), F.V: C.mk_vec(ev, st, prog, 'vx', 'vy', 'vz'), F.t: S('t'),
+           wname: C.mk_vec(ev, st, prog, 'wx', 'wy', 'wz'), sock: SymObj('wind_sock'),
+           'data_filter': SymObj('data_filter'), 'ranges': ev.new_list(st, []), 'it': S('it'),
+           F.rho: S('rho_prev'), F.a: S('a_prev'), 'drag': S('drag_prev'), 'velocity': S('speed_prev')}
+    for p in F.func.positional[2:]:
+        env[p] = S(f'${p}')
+    for n, fld in lm.items():
+        env[n] = S(f'cfg.{fld}')
+    from .c18 import config_aliases
+    for n in config_aliases(F.func):
+        if '_config' in st.heap[selfv.oid]:
+            env[n] = st.heap[selfv.oid]['_config']
+    # any other local assigned before the loop and read inside it
+    loop_reads = {n.id for n in ast.walk(F.loop) if isinstance(n, ast.Name) and isinstance(n.ctx, ast.Load)}
+    for n in loop_reads:
+        if n not in env and n not in ('math', 'max', 'min', 'RangeError', 'create_trajectory_row', 'TrajFlag', 'logger',
+                                      'warnings', 'abs', 'len', 'float', 'int', 'bool'):
+            try:
+                ev.lookup(n, State(), ctx)
+            except Undecided:
+                env[n] = S(f'${n}')
+    st.env.update(env)
+    try:
+        tree = ev.exec_block(F.loop.body, st, ctx)
+    except Undecided as exc:
+        raise AnalysisError(f'loop body of _integrate: {exc}') from exc
+    return st, selfv, tree, wname
+
+
 def run(prog: Program, rep, thorough: bool) -> None:
     A.reset()
     rep.rule('C01.R1', 'one step = tau x (right-hand side of the ODE) to first order', 4)
@@ -73,46 +139,7 @@ def run(prog: Program, rep, thorough: bool) -> None:
     ctx = Ctx(tc, F.func, None, 0)
 
     # ---- R1: one loop iteration ----------------------------------------------------------------
-    st = State()
-    cfg_inst = ev.new_inst(st, cfgc, {f: S(f'cfg.{f}') for f in prog.namedtuple_fields(cfgc)})
-    try:
-        selfv = ev.construct(tcc, [cfg_inst], {}, st, ctx)
-    except Undecided as exc:
-        raise AnalysisError(f'TrajectoryCalc.__init__: {exc}') from exc
-    st.heap[selfv.oid].update({'alt0': S('alt0'), 'calc_step': S('cs'), 'look_angle': S('L'), 'weight': S('w'),
-                               '_bc': S('BC'), '_curve': SymObj('curve'), '__mach_list': SymObj('ml'),
-                               '_table_data': SymObj('table')})
-    lm = {}
-    from .c18 import _locals_from_config
-    lm = _locals_from_config(F.func)
-    env = {'self': selfv, F.func.positional[1]: SymObj('shot'),
-           F.P: C.mk_vec(ev, st, prog, 'x', 'y', 'z'), F.V: C.mk_vec(ev, st, prog, 'vx', 'vy', 'vz'), F.t: S('t'),
-           'wind_vector': C.mk_vec(ev, st, prog, 'wx', 'wy', 'wz'), 'wind_sock': SymObj('wind_sock'),
-           'data_filter': SymObj('data_filter'), 'ranges': ev.new_list(st, []), 'it': S('it'),
-           F.rho: S('rho_prev'), F.a: S('a_prev'), 'drag': S('drag_prev'), 'velocity': S('speed_prev')}
-    for p in F.func.positional[2:]:
-        env[p] = S(f'${p}')
-    for n, fld in lm.items():
-        env[n] = S(f'cfg.{fld}')
-    from .c18 import config_aliases
-    for n in config_aliases(F.func):
-        if '_config' in st.heap[selfv.oid]:
-            env[n] = st.heap[selfv.oid]['_config']
-    # any other local assigned before the loop and read inside it
-    loop_reads = {n.id for n in ast.walk(F.loop) if isinstance(n, ast.Name) and isinstance(n.ctx, ast.Load)}
-    for n in loop_reads:
-        if n not in env and n not in ('math', 'max', 'min', 'RangeError', 'create_trajectory_row', 'TrajFlag', 'logger',
-                                      'warnings', 'abs', 'len', 'float', 'int', 'bool'):
-            try:
-                ev.lookup(n, State(), ctx)
-            except Undecided:
-                env[n] = S(f'${n}')
-    st.env.update(env)
-    wname = 'wind_vector'
-    try:
-        tree = ev.exec_block(F.loop.body, st, ctx)
-    except Undecided as exc:
-        raise AnalysisError(f'loop body of _integrate: {exc}') from exc
+    st, selfv, tree, wname = loop_iteration(prog, F, ev, ctx)
     n_paths = 0
     problems: Dict[str, str] = {}
     x, y, z = A.sym('x'), A.sym('y'), A.sym('z')
